@@ -219,6 +219,19 @@ def sample_index(t, samplerate):
     return floor(F(t) * F(samplerate))
 
 
+def sample_index_decided(t, samplerate):
+    """(judged, index) for a time that is NOT on the dyadic lattice (t is the double handed to the exporter).
+
+    The property says floor(time x samplerate).  The real-number answer is floor(Fraction(t) * samplerate); the
+    answer of correctly rounded double arithmetic is floor(t * samplerate).  Only when the two agree does the property
+    decide the index; otherwise (the exact product lies just on the other side of an integer than its double
+    rounding) the case is not judged.
+    """
+    exact = floor(F(t) * F(samplerate))
+    double = floor(float(t) * float(samplerate))
+    return (exact == double), exact
+
+
 def export_segment(kind, coords, cast, samplerate):
     """("reject", why) | ("ok", (onset_s, offset_s, onset_sample, offset_sample))."""
     if kind is None:
